@@ -72,8 +72,11 @@ C11_QUICK = {"c09_literal_n3_s111", "c09_def0_hash_n2", "c09_def0_d1_n2", "c09_f
 def header(tier, timeout, mem, fns, bound, unwind, name):
     other = "" if name in ALSO_QUICK else ":thorough"
     c11 = "" if name in C11_QUICK else ":thorough"
+    # the deepest rung (5-byte windows) only climbs under C09; C06 / C12 / C11 stop at 4-byte windows
+    deepest = "_n4" in name
+    props = "C09" if deepest else "C09 C06%s C12%s C11%s" % (other, other, c11)
     return [
-        "// @props C09 C06%s C12%s C11%s" % (other, other, c11),
+        "// @props " + props,
         "// @tier %s" % tier,
         "// @timeout %d" % timeout,
         "// @mem %d" % mem,
